@@ -11,7 +11,7 @@
    * hand-written here (source lines quoted): the accept rule of generate_hmc_acc_rej, the bit
      functions and the checkpoint bookkeeping of iterative_build_tree, progressive (multinomial)
      sampling of add_single_qp_to_tree / merge_trees. *)
-From Coq Require Import ZArith NArith QArith List Bool.
+From Coq Require Import ZArith NArith QArith Qminmax List Bool.
 Import ListNotations.
 
 Record Ops (T : Type) := mkOps {
@@ -34,7 +34,7 @@ Section Vec.
   Definition vdivs (a : vec) (s : T) : vec := fun i => odiv O (a i) s.        (* array / scalar *)
   (* tree_math.vdot / jnp.sum over the d entries of the array, in index order *)
   Fixpoint vsum (d : nat) (a : vec) : T :=
-    match d with O => o0 O | S d' => oadd O (vsum d' a) (a d') end.
+    match d with 0%nat => o0 O | S d' => oadd O (vsum d' a) (a d') end.
   Definition vdot (d : nat) (a b : vec) : T := vsum d (vmul a b).
 
   (* class QP(NamedTuple): position, momentum *)
@@ -46,7 +46,7 @@ Arguments mkQP {T}. Arguments position {T}. Arguments momentum {T}.
 
 (* fori_loop(lower=0, upper=n, body_fun=lambda _, args: f(args), init_val=x) *)
 Fixpoint fori {A : Type} (n : nat) (f : A -> A) (x : A) : A :=
-  match n with O => x | S n' => f (fori n' f x) end.
+  match n with 0%nat => x | S n' => f (fori n' f x) end.
 
 (* ------------------------------------------------------------------------------------------ *)
 (* generate_hmc_acc_rej: the accept rule.  Float energies as far as the rule distinguishes them. *)
@@ -85,11 +85,16 @@ Section Accept.
     | Fin e => negb (oltb O e (o0 O)) || oltb O lnu e
     | PInf => true | NInf => false | NaN => false
     end.
-  (* diverging = jnp.abs(energy_diff) > max_energy_difference   (max finite here) *)
-  Definition diverging (maxd : T) (d : ext T) : bool :=
-    match d with
-    | Fin e => oltb O maxd e || oltb O maxd (oopp O e)
-    | PInf | NInf => true | NaN => false
+  (* diverging = jnp.abs(energy_diff) > max_energy_difference
+     (max_energy_difference: [None] = jnp.inf, the default; nothing is greater than inf) *)
+  Definition diverging (maxd : option T) (d : ext T) : bool :=
+    match maxd with
+    | None => false
+    | Some mx =>
+      match d with
+      | Fin e => oltb O mx e || oltb O mx (oopp O e)
+      | PInf | NInf => true | NaN => false
+      end
     end.
 End Accept.
 
@@ -121,7 +126,7 @@ Definition i_max_incl (n : N) : Z := Z.of_N (popcount (n - 1)).
 Definition i_min_incl (n : N) : Z := (i_max_incl n - Z.of_N (count_trailing_ones n) + 1)%Z.
 (* fori_loop(lower, upper): lower, lower+1, ..., upper-1 *)
 Fixpoint zrange (lo : Z) (len : nat) : list Z :=
-  match len with O => [] | S l => lo :: zrange (lo + 1)%Z l end.
+  match len with 0%nat => [] | S l => lo :: zrange (lo + 1)%Z l end.
 Definition read_slots (n : N) : list Z :=
   zrange (i_min_incl n) (Z.to_nat (i_max_incl n + 1 - i_min_incl n)).
 
@@ -134,7 +139,7 @@ Definition step_events (n : N) : list ckev :=
    the loop, then n = 1 .. 2**depth - 1 *)
 Fixpoint events_upto (k : nat) : list ckev :=
   match k with
-  | O => [Wr 0 0]
+  | 0%nat => [Wr 0 0]
   | S k' => events_upto k' ++ step_events (N.of_nat k)
   end.
 
@@ -143,7 +148,7 @@ Definition store := Z -> option N.
 Definition upd (s : store) (i : Z) (v : N) : store := fun j => if Z.eqb j i then Some v else s j.
 Fixpoint S_after (k : nat) : store :=
   match k with
-  | O => upd (fun _ => None) 0 0%N
+  | 0%nat => upd (fun _ => None) 0 0%N
   | S k' => let n := N.of_nat k in
             if N.even n then upd (S_after k') (Z.of_N (write_slot n)) n else S_after k'
   end.
